@@ -360,7 +360,7 @@ ASSUMPTIONS = {'C02': [
     'surfacecard.split / get_surfaces (regular expressions, float()) are trusted: their output shape '
     '(bc, tr, mnemonic, list of floats) is the precondition of the chain',
 ]}
-TRUSTED = {'C02': ['MIP.mip.surfacecard.split (regex)', 'MIP.geom.surfaces.get_surfaces (float parsing)']}
+TRUSTED = {'C02': ['float() (number parsing)']}
 
 
 # ------------------------------------------------------------------ SurfaceCollection.join / CollectionDict.number_items
@@ -426,3 +426,68 @@ class _NumberItems:
             (i > 0) == (side > 0) and numbering[abs(i)] is obj
             for k in keys for i, (obj, side) in zip(matching[k], objs[k]))
         yield 'nothing-else-numbered', set(numbering) == set(ids)
+
+
+# ------------------------------------------------------------------ surface cards: text -> (flag, TR, mnemonic, numbers)
+
+def _mip_of(text):
+    """MIP object on a temporary copy of `text` (removed again before returning the parsed cards)."""
+    import os
+    import tempfile
+    from MIP import mip
+    d = tempfile.mkdtemp(prefix='t4gc_')
+    p = os.path.join(d, 'deck.i')
+    try:
+        with open(p, 'w') as f:
+            f.write(text)
+        return mip.MIP(p)
+    finally:
+        os.unlink(p)
+        os.rmdir(d)
+
+
+_CARD_LAYOUTS = ['{head} {body}', '  {head}  {body}   $ trailing comment', '{head} {b1} &\n   {b2}', '{head} {b1}\n      {b2}',
+                 '{head} {b1}\nc a comment line between a card and its continuation\n     {b2}']
+_CARD_BODIES = [('PX', ['1.5']), ('c/z', ['1', '-2.5', '1e-3']), ('GQ', ['1', '2', '3', '4', '5', '6', '7', '8', '9', '-10.']),
+                ('Kz', ['0', '.25', '-1']), ('so', ['2.']), ('RPP', ['-1', '1', '-2', '2', '-3', '3E0']), ('p', ['1', '0', '0', '+4'])]
+
+
+from MIP.geom import surfaces as _MIPSURF
+
+
+@contract(_MIPSURF.get_surfaces, props=['C02'], name='surfaces.get_surfaces', status='B')
+class _GetSurfaces:
+    """Surface cards (any layout MCNP accepts: leading blanks, continuation by `&` or by five leading blanks, `$`
+    comments, comment lines, upper / lower case) are read as: number, boundary flag, transformation number,
+    lower-case mnemonic and the list of numbers in order -- the precondition of every card chain proved above."""
+    scope = '3 flags x 3 TR fields x 7 card bodies x 5 layouts, two cards per deck'
+
+    def bounded(tier):
+        k = 0
+        for flag in ('', '*', '+'):
+            for tr in ('', '3', '-12'):
+                for mn, nums in _CARD_BODIES:
+                    for layout in _CARD_LAYOUTS:
+                        k += 1
+                        if tier == 'quick' and k % 3:
+                            continue
+                        yield {'flag': flag, 'tr': tr, 'mn': mn, 'nums': tuple(nums), 'layout': layout}
+
+    def call(flag, tr, mn, nums, layout):
+        from MIP.geom import surfaces
+        head = f'{flag}7 {tr} {mn}' if tr else f'{flag}7 {mn}'
+        half = max(1, len(nums) // 2)
+        card = layout.format(head=head, body=' '.join(nums), b1=' '.join(nums[:half]), b2=' '.join(nums[half:]))
+        if len(nums) == 1 and '{b2}' in layout:
+            card = f'{head} {nums[0]}'
+        text = f'title\n1 0 -7 imp:n=1\n2 0 7 imp:n=0\n\n{card}\n9 so 100.\n\nmode n\n'
+        return dict(surfaces.get_surfaces(_mip_of(text)))
+
+    def ensures(result, flag, tr, mn, nums, layout):
+        yield 'both-cards-read', sorted(result) == [7, 9]
+        bc, t, typ, params = result[7]
+        yield 'flag', bc == flag
+        yield 'transformation-field', t.strip() == tr
+        yield 'mnemonic', typ == mn.lower()
+        yield 'numbers-in-order', params == [float(x) for x in nums]
+        yield 'next-card-untouched', result[9] == ('', '', 'so', [100.0])
